@@ -111,8 +111,16 @@ def method_names():
 # call / script generation
 # ---------------------------------------------------------------------------
 
+COLLIDING = ["context", "method_name", "rpc_object_address", "rpc_lock_token"]
+
+
 def _kwnames(rng, n):
-    return rng.sample(KW_POOL, n)
+    """keyword names; the four names known to collide with the helper's parameters (known finding) are kept rare so that
+    most calls test something else"""
+    names = rng.sample([k for k in KW_POOL if k not in COLLIDING], n)
+    if rng.random() < 0.04:
+        names[rng.randrange(n)] = rng.choice(COLLIDING)
+    return names
 
 
 def gen_call(rng, qn, big=False):
@@ -882,6 +890,8 @@ class C02(Prop):
             spans.append((len(lines), len(l), {"kind": "script", "plan": plan, "variants": [list(v) for v in variants], "real_tcp": real_tcp}))
             lines += l
             outs += o
+            if len(lines) > 250000:
+                self._diff(res, lines, outs, spans)
             res.traces_validated += 1
             res.count("scenarios_tcp" if real_tcp else "scenarios_simnet")
             for v in variants:
@@ -940,6 +950,8 @@ class C02(Prop):
             spans.append((len(lines), len(l), {"kind": "conc", "plan": plan, "real_tcp": real_tcp}))
             lines += l
             outs += o
+            if len(lines) > 250000:
+                self._diff(res, lines, outs, spans)
             res.traces_validated += 1
             if i < 1 and not real_tcp:
                 res.sample({"concurrent_plan": json.dumps(plan)[:400]})
@@ -981,7 +993,7 @@ class C02(Prop):
         for l in lines:
             res.count("trace_op_" + l.split(" ", 1)[0])
         k = diff_streams(lines, outs, model)
-        if k is not None:
+        if k is not None and not any(b.stage == "correspondence" for b in res.broken):
             for (start, ln, case) in spans:
                 if start <= k < start + ln:
                     ctxl = "; ".join(lines[max(start, k - 3):k])
@@ -989,6 +1001,7 @@ class C02(Prop):
                                              f"trace line {k - start}: op={lines[k]!r} impl={outs[k]!r} model={model[k]!r} (after: {ctxl})",
                                              case=case))
                     break
+        del lines[:], outs[:], spans[:]
 
     def correspondence(self, ctx: Ctx) -> Result:
         res = Result(rule="case = one call (method, positional specs, keyword specs) of a generated script run on a direct object and "
@@ -1000,13 +1013,20 @@ class C02(Prop):
         seen: dict = {}
         lines, outs, spans = [], [], []
         with T.installed():
-            self._scripts(ctx, res, ctx.scale(170, 2500), 8, seen, lines, outs, spans)
+            # the Lean witness `proxy_eq_direct_false_for_pinned_params`, replayed on the real code (every helper parameter name)
+            for nm in sorted(set(HELPER_PARAMS[0] + HELPER_PARAMS[1] + COLLIDING)):
+                plan = {"script": [{"m": "echo", "a": [], "k": [[nm, ["int", "0"]]]}], "seed": 0, "lock": None, "names": ["srv", "cli"]}
+                vs = [("local", "blk"), ("peer", "nb")]
+                for f in eval_script(plan, vs):
+                    self._note_failure(res, seen, plan, f[0], f[1], f[2], f[3])
+                res.count("lean_witness_replays")
+                res.note_case(("witness", nm))
+            self._scripts(ctx, res, ctx.scale(170, 2000), 8, seen, lines, outs, spans)
             ctx.log(f"scripts done: {res.evaluations} calls compared, {len(res.failures)} failing signatures")
-            self._concurrent(ctx, res, ctx.scale(260, 5000), seen, lines, outs, spans, thorough=not ctx.quick)
+            self._concurrent(ctx, res, ctx.scale(260, 3500), seen, lines, outs, spans, thorough=not ctx.quick)
             ctx.log(f"concurrent scenarios done ({len(lines)} trace lines)")
             self._diff(res, lines, outs, spans)
             if not ctx.quick:
-                lines, outs, spans = [], [], []
                 self._scripts(ctx, res, 250, 8, seen, lines, outs, spans, real_tcp=True, big=True)
                 self._concurrent(ctx, res, 200, seen, lines, outs, spans, real_tcp=True, thorough=True)
                 ctx.log("real loopback TCP scenarios done")
